@@ -397,6 +397,8 @@ def rule_findchunk(ctx, rep):
     pat.require(n >= 1, "find_chunk never returns a chunk")
 
 
+META["explanation"] += " " + "Also (round 10): in-place growth records the grown chunk's capacity, matching the bytes appended."
+
 RULES = [
     ("C15.listops", rule_listops),
     ("C15.bpowner", rule_bp_owner),
